@@ -233,6 +233,13 @@ class CkptFamily(common.Family):
   def gen(self, rng, tier):
     spec = pipes.gen_spec(rng, max_n=12, allow_rebatch=False, allow_sink=False)
     level = rng.choice(['source', 'pipeline', 'pipeline', 'chain'])
+    # scale: a few runs use a source longer than the 64-element read-ahead of
+    # the sequence iterators, so that cuts fall after a refill of the
+    # read-ahead cache and shards end inside a read-ahead block (sequential
+    # configurations only: see num_threads below)
+    big = rng.random() < 0.04
+    if big:
+      spec['n'] = rng.randrange(65, 150)
     if level != 'source' and rng.random() < 0.25:
       # A re-batching operator whose batches are whole multiples of the source
       # elements (one row each): after every emitted batch it holds nothing,
@@ -276,7 +283,7 @@ class CkptFamily(common.Family):
         cutpoints = sorted(set(cutpoints) |
                            {rng.randrange(cutpoints[0], nops + 1)})
     num_threads = 0 if level == 'source' else rng.choice([0, 0, 0, 1, 2, 3])
-    if spec.get('rebatch_exact'):
+    if spec.get('rebatch_exact') or big:
       num_threads = 0    # (each thread would re-batch its own share)
     # unreadable records that the source is configured to skip
     poison = []
